@@ -745,7 +745,22 @@ THEORIES['nonneg'] = nonneg_axioms
 _m = z3.Const('ea_m', Val)
 _ii, _jj, _k0 = z3.Ints('ea_i ea_j ea_k0')
 _PEN, _ND = _ctxc[7], _ctxc[12]
-_EA_CTX = z3.And(z3.Not(vlt(_PEN, vzero)), _ND == 0, vlt(_m, vinf))
+_EA_CTX = z3.And(z3.Not(vlt(_PEN, vzero)), _ND >= 0, vlt(_m, vinf))
+
+# the multivariate point cost (sum of squares over the dimensions, or its square root) is not negative: induction on the dimension
+from specs.bounds import InnerNdf, innernd_axioms      # noqa: E402
+_na1, _na2 = z3.Consts('inn_a1 inn_a2', AV)
+_nb1, _nb2 = z3.Ints('inn_b1 inn_b2')
+induction_lemma(
+    'InnerNdNonneg', [_na1, _nb1, _na2, _nb2], _kk, 0,
+    hyp=lambda k: z3.BoolVal(True),
+    prop=lambda k: z3.Not(vlt(InnerNdf(_na1, _nb1, _na2, _nb2, k), vzero)),
+    patterns=lambda k: [InnerNdf(_na1, _nb1, _na2, _nb2, k)],
+    doc='a left-to-right sum of squares is not negative', axioms=innernd_axioms() + order_axioms() + nonneg_axioms(), props=('C03',))
+
+
+def _cost_nonneg_axioms():
+    return LEMMAS['InnerNdNonneg'].axioms() + sqrt_nonneg_axioms()
 
 
 def _cellabove_axiom():
@@ -759,7 +774,8 @@ def _cellabove_obligations():
     body = _cellabove_axiom()[0].body()
     inst = z3.substitute_vars(body, *reversed(_ctxc + [_m, _ii, _jj]))
     return [Obligation('lemma:CellAbove::unfold', 'lemma', [], inst, 'lemma:CellAbove', props=('C03',),
-                       note='a cell whose three predecessors exceed m exceeds m', axioms=w_axioms() + order_axioms() + nonneg_axioms())]
+                       note='a cell whose three predecessors exceed m exceeds m',
+                       axioms=w_axioms() + order_axioms() + nonneg_axioms() + _cost_nonneg_axioms())]
 
 
 LEMMAS['CellAbove'] = Lemma('CellAbove', _cellabove_axiom, _cellabove_obligations,
@@ -823,7 +839,8 @@ def _agreestep_obligations():
     body = _agreestep_axiom()[0].body()
     inst = z3.substitute_vars(body, *reversed(_ctxc + [_m, _ii, _jj, _a1, _b1, _c1]))
     return [Obligation('lemma:AgreeStep::unfold', 'lemma', [], inst, 'lemma:AgreeStep', props=('C03',),
-                       note='the recurrence step preserves agreement up to the bound', axioms=w_axioms() + order_axioms() + nonneg_axioms())]
+                       note='the recurrence step preserves agreement up to the bound',
+                       axioms=w_axioms() + order_axioms() + nonneg_axioms() + _cost_nonneg_axioms())]
 
 
 LEMMAS['AgreeStep'] = Lemma('AgreeStep', _agreestep_axiom, _agreestep_obligations,
